@@ -20,7 +20,11 @@ RULE = ("Hypothesis-generated sequences of read operations only (item access, ge
         "objects. After every step: an audit hook saw no write-mode open, rename, remove, truncate, "
         "utime or mkdir below the scratch directory; the file's (bytes, inode, size, mtime_ns) and "
         "the directory listing are unchanged; a missing resource is still missing; the fake stores "
-        "counted zero set/replace_one/require_dataset/__setitem__ calls. Non-trivial = >=3 reads "
+        "counted zero set/replace_one/require_dataset/__setitem__ calls. Half of the JSON cases add a "
+        "BYSTANDER object on a second file that is mutated (and, for buffered classes, capacity changes "
+        "that force flushes) while the watched object is only read, and an outside writer that "
+        "re-stores the watched file with the same data in another textual form (key order, "
+        "whitespace). Non-trivial = >=3 reads "
         "incl. one on a nested child, or a context entry+exit around reads, or a missing resource; "
         "distinct by (class, op kinds, context shape, resource state).")
 ASSUMPTIONS = [
@@ -34,10 +38,44 @@ class ReadOnlyWorld(BufWorld):
         kw["check_frozen"] = False
         kw["check_resource"] = False
         super().__init__(*a, **kw)
-        self.base = [(r.raw(), r.stat() if hasattr(r, "stat") else None, r.write_count())
-                     for r in self.res]
-        self.listing = sorted(os.listdir(self.dir))
+        self.rebase()
         audit.start(self.dir)
+
+    def _watched(self):
+        # resource 0 is only ever read; a second resource (if any) is a writable bystander
+        return [0]
+
+    def rebase(self):
+        self.base = {i: (self.res[i].raw(), self.res[i].stat() if hasattr(self.res[i], "stat") else None,
+                         self.res[i].write_count()) for i in self._watched()}
+        self.listing = self._ls()
+
+    def _ls(self):
+        return sorted(n for n in os.listdir(self.dir) if "r1.json" not in n)
+
+    def _s_reformat(self, s):
+        """Outside writer stores the SAME data in another textual form (key order, whitespace)."""
+        import json
+        r = self.res[0]
+        if r.backend != "json" or r.raw() is None:
+            return False
+        audit.stop()
+
+        def rev(x):
+            if isinstance(x, dict):
+                return {k: rev(x[k]) for k in reversed(list(x))}
+            if isinstance(x, list):
+                return [rev(v) for v in x]
+            return x
+        r.write(None, raw=json.dumps(rev(self.docs[0]), indent=s.get("indent", 1)).encode())
+        audit.start(self.dir)
+        self.rebase()
+
+    def _s_setcap(self, s):
+        roots = self.roots()
+        if not roots or not self.ci.buffered:
+            return False
+        type(self.handles[roots[0]].real).set_buffer_capacity(s["n"])
 
     def step(self, s):
         done = super().step(s)
@@ -45,21 +83,29 @@ class ReadOnlyWorld(BufWorld):
         return done
 
     def verify(self, s):
-        ev = audit.peek()
+        ev = [e for e in audit.peek() if "r1.json" not in " ".join(map(str, e[1:]))]
         if ev:
             raise Mismatch("write_event", step=s, events=[list(e) for e in ev[:4]])
-        for i, r in enumerate(self.res):
+        for i in self._watched():
+            r = self.res[i]
             now = (r.raw(), r.stat() if hasattr(r, "stat") else None, r.write_count())
             if now != self.base[i]:
                 what = "resource_created" if self.base[i][0] is None and now[0] is not None else \
                     "resource_touched"
                 raise Mismatch(what, step=s, before=repr(self.base[i])[:160], after=repr(now)[:160])
-        ls = sorted(os.listdir(self.dir))
+        ls = self._ls()
         if ls != self.listing:
             raise Mismatch("directory_changed", step=s, before=self.listing, after=ls)
 
     def check_res(self, r, step=None):
         return
+
+    def _s_op(self, s):
+        # mutators are only legal on the bystander resource
+        i = s["h"]
+        if self.usable(i) and ops.is_mutator(self.handles[i].kind, s["m"]) and self.handles[i].res == 0:
+            return False
+        return super()._s_op(s)
 
     def final_check(self):
         self.unwind()
@@ -80,6 +126,17 @@ def _gen_step(ci, dom):
         c = draw(st.integers(0, 19))
         if c == 0 and len(roots) < 2:
             return {"t": "new", "r": 0, "id": w.next_id()}
+        by = [i for i in roots if w.handles[i].res == 1]
+        if len(w.res) > 1 and ci.backend == "json":
+            if not by and draw(st.integers(0, 3)) == 0:
+                return {"t": "new", "r": 1, "id": w.next_id()}
+            if by and c in (12, 13):
+                # the bystander is written while the watched object is only read
+                return gen.draw_mutator(draw, w, draw(st.sampled_from(by)), dom, p_raise=0)
+            if ci.buffered and c == 14:
+                return {"t": "setcap", "n": draw(st.sampled_from([0, 1, 2, 10, 10**9]))}
+        if ci.backend == "json" and c == 15:
+            return {"t": "reformat", "indent": draw(st.sampled_from([None, 1, 4]))}
         if ci.buffered:
             if c < 3 and len(w.stack) < 4:
                 return {"t": "enter_obj", "h": draw(st.sampled_from(roots))}
@@ -93,7 +150,7 @@ def _gen_step(ci, dom):
                 if s["via"] == "setdefault":
                     s["via"] = "get"
                 return s
-        hi = gen.pick_handle(draw, w)
+        hi = gen.pick_handle(draw, w, among=[i for i in w.attached_handles() if w.handles[i].res == 0] or None)
         if hi is None:
             return None
         h = w.handles[hi]
@@ -128,7 +185,10 @@ def run_shard(spec, seed, tier, active):
         draw = data.draw
         init = draw(st.one_of(st.just(ABSENT), dom.doc(ci.kind), dom.doc(ci.kind)))
         try:
-            w = wm.run_generated(ID, ci, [init], _gen_step(ci, dom), draw, 30, engine="roworld",
+            docs = [init]
+            if ci.backend == "json" and draw(st.booleans()):
+                docs = [init, draw(dom.doc(ci.kind))]
+            w = wm.run_generated(ID, ci, docs, _gen_step(ci, dom), draw, 30, engine="roworld",
                                  check_outcome=False)
         finally:
             audit.stop()
